@@ -41,4 +41,14 @@ def main():
 
 
 if __name__ == "__main__":
-    sys.exit(main())
+    try:
+        rc = main()
+    except SystemExit:
+        raise
+    except BaseException:
+        # a crash of the harness itself is an infrastructure failure (exit 2), never a verdict about the property
+        import traceback
+        traceback.print_exc()
+        print("INFRA: the harness crashed (see traceback above)")
+        rc = 2
+    sys.exit(rc)
